@@ -2,7 +2,7 @@ from common import LEAN_TB
 
 CHECK = {
     "title": "Builds are bit-for-bit reproducible",
-    "modules": ["Apko.Proofs.C01"],
+    "modules": ["Apko.Proofs.Lemmas.ComparatorOrder", "Apko.Proofs.Lemmas.ComparatorLex", "Apko.Proofs.Lemmas.ComparatorMin", "Apko.Proofs.Lemmas.ComparatorNameMap", "Apko.Proofs.Lemmas.ComparatorDq", "Apko.Proofs.Lemmas.ComparatorDeps", "Apko.Proofs.Lemmas.ComparatorResolve", "Apko.Proofs.C01"],
     "sites": True,
     "suites": [("repro", 40, 1500)],
     "budget_quick": 170,
